@@ -2,11 +2,13 @@
 from ..mir import Callee, Resolver, fmt, literals, walk, strip_sites as s
 from ..kernel import Kernel, Poly, Block, Aff, symaff, OutOfFragment, kernel_return, kernel_return_soft, index_writes
 from . import prune
+from . import helpers
 from .prune import is_call
 
 LEVEL = 'proof'
 TECHNIQUE = 'static analysis: value numbering of MIR def-use DAGs to non-commutative polynomial normal forms, compared with the documented formula (nothing executed)'
 RULES = {
+    'C16.R4': helpers.RULE_TEXT,
     'C16.R1': 'kernel identities: apply, apply_transpose, compose, stack, negate, row/row_iter (same row index), remove_zero_columns (bias untouched), '
               'as_polytope/as_function/new/view/to_owned (field-wise), convert_to per PolyRepr arm',
     'C16.R3': 'row selection: remove_rows / remove_zero_rows return a sub-sequence of the unchanged (row i, bias i) pairs of self; remove_zero_rows drops a row only if all its coefficients and its bias are zero ; from_row_iter copies item i to row i / bias i (shared with C15.R1/R3)',
@@ -14,7 +16,7 @@ RULES = {
 }
 CONTROL_REV = '078b142'  # thorough tier: the rules must still report the defects found (and since fixed) on the original tree
 CONTROLS = [('C16.R2', 'AffFuncBase::translation'), ('C16.R2', 'AffFuncBase::subtraction#aliasing')]
-FLOORS = {'C16.R1': 36, 'C16.R2': 12, 'C16.R3': 4}
+FLOORS = {'C16.R4': 4, 'C16.R1': 36, 'C16.R2': 12, 'C16.R3': 4}
 EXPLANATION = ('Each kernel is single-path; its returned value is a polynomial in the operands, and polynomial identities over matrices of all sizes are decidable by '
                'normal-form comparison. Constructor forms (base matrix + point writes) are compared entry-wise with the documented meaning.')
 DOES_NOT_DECIDE = 'from_row_iter/remove_rows iterator plumbing (C15), % semantics beyond element-wise, floating-point rounding'
@@ -50,6 +52,7 @@ def obligation(ctx, rule, F, q, spec, impl_filter=None, site=None):
 
 
 def run(ctx):
+    helpers.run_for(ctx)
     prune.check_wrappers(ctx, 'C16.R1', {'AffFuncBase::matrix_view': ('self.mat', [], 'a view of the matrix'), 'AffFuncBase::bias_view': ('self.bias', [], 'a view of the bias')})
     prune.check_layout_independence(ctx, 'C16.R1')
     F = ctx.facts
